@@ -13,7 +13,8 @@ EXPLANATION = (
     "(d) the send loop over my_intfs does not depend on the known-answer list.  Decides that the code computes the "
     "quoted formulas, not wire behaviour at the boundary values."
     " (e) A suppressed PTR takes its SRV/TXT/address additionals with it."
-    " (f) Everything reachable from handle_query queues answers only through DnsOutgoing::add_answer. (g) A matched cached record always gets reset_ttl(incoming), also for a goodbye.")
+    " (f) Everything reachable from handle_query queues answers only through DnsOutgoing::add_answer. (g) A matched cached record always gets reset_ttl(incoming), also for a goodbye."
+    " (h) matches() compares like with like.")
 UNDECIDED = ["behaviour at the boundary values on the wire (that is what F12 pins to the formula, no more)",
              "responder handling of multi-packet known-answer lists (TC bit)"]
 
